@@ -3,8 +3,8 @@
  1. design level: TLC checks Model |= Judges (Multipolygon.tla: Join / Ring / hole assignment / annotateOrientation
     transcribed as a step machine) over every cut / reversal / member order of small shapes, plus termination;
  2. S->C: TLC enumerates (BFS of the generating machine) or samples (-simulate, larger shapes) abstract cases, the Go
-    harness renders them onto coordinates and runs the real osmgeojson.Convert (2 coordinate sources x 3 orientation
-    masks + the relation as annotated by the real annotate.Relations) and annotate.Relations;
+    harness renders them onto coordinates and runs the real osmgeojson.Convert (2 coordinate sources x orientation masks
+    none / all, a partial mask, + the relation as annotated by the real annotate.Relations) and annotate.Relations;
  3. MultipolygonJudge.tla decides every record (RingsRecovered, SameForBothCoordinateSources,
     SameWithOrWithoutOrientation, OrientationAnnotated) and compares it with the exact prediction of the Model
     (mismatch with all Judges holding = DIVERGENCE, not a violation)."""
@@ -24,16 +24,16 @@ FAM_QUICK = [
 FAM_THOROUGH = [
     ("one",      "S_One",      4, '{"all"}',              1),
     ("hole33",   "S_Hole33",   3, '{"of", "if", "alt"}',  1),
-    ("hole43",   "S_Hole43",   3, '{"alt"}',              2),
+    ("hole43",   "S_Hole43",   3, '{"alt"}',              3),
     ("hole34",   "S_Hole34",   2, '{"of", "if", "alt"}',  1),
     ("hole54",   "S_Hole54",   2, '{"of", "alt"}',        2),
-    ("two33",    "S_Two33",    3, '{"all"}',              2),
+    ("two33",    "S_Two33",    3, '{"all"}',              3),
     ("two34",    "S_Two34",    2, '{"all"}',              1),
     ("two45",    "S_Two45",    1, '{"all"}',              1),
-    ("two33h1",  "S_Two33H1",  2, '{"of", "alt"}',        20),
-    ("one4hh",   "S_One4HH",   2, '{"alt"}',              24),
-    ("two33h2",  "S_Two33H2",  1, '{"all"}',              4),
-    ("two43h2",  "S_Two43H2",  1, '{"of", "if", "alt"}',  4),
+    ("two33h1",  "S_Two33H1",  2, '{"of", "alt"}',        30),
+    ("one4hh",   "S_One4HH",   2, '{"alt"}',              36),
+    ("two33h2",  "S_Two33H2",  1, '{"all"}',              6),
+    ("two43h2",  "S_Two43H2",  1, '{"of", "if", "alt"}',  6),
 ]
 MC_QUICK = ["Multipolygon_mc_q1.cfg", "Multipolygon_mc_q2.cfg", "Multipolygon_same_q.cfg", "Multipolygon_live_q.cfg"]
 MC_THOROUGH = ["Multipolygon_mc_t1.cfg", "Multipolygon_mc_t2.cfg", "Multipolygon_mc_t2b.cfg", "Multipolygon_mc_t3.cfg", "Multipolygon_mc_t4.cfg",
@@ -135,7 +135,7 @@ def run(ctx):
     # ---- cases
     with cf.ThreadPoolExecutor(max_workers=6) as ex:
         parts = list(ex.map(lambda f: gen_family(ctx, f), fams))
-    parts.append(gen_sim(ctx, 300 if quick else 4000))
+    parts.append(gen_sim(ctx, 300 if quick else 3000))
     cases, famstat = [], {}
     for name, total, cs in parts:
         famstat[name] = {"enumerated": total, "executed": len(cs)}
@@ -178,8 +178,8 @@ def run(ctx):
     ctx.exhaustive = all(v["enumerated"] == v["executed"] for k, v in famstat.items() if k != "sim")
     ctx.rule = ("cases = completed member lists of the generating machine of Multipolygon.tla (every cut into 1..MaxPieces ways, "
                 "every reversal subset, every member order / the stated interleavings) for the families in coverage.families, "
-                "plus `sim` sampled by TLC -simulate from larger shapes; each case is executed with 2 coordinate sources x 3 "
-                "orientation masks + annotate.Relations + conversion of the annotated relation; distinct = distinct abstract "
+                "plus `sim` sampled by TLC -simulate from larger shapes; each case is executed with both coordinate sources x orientation masks none / all, a partial mask (separate nodes), "
+                "annotate.Relations and the conversion of the relation it annotated; distinct = distinct abstract "
                 "cases; non-trivial = some ring cut into several ways or some way reversed")
     ctx.assumptions = [
         "geometry enters the specification through three facts the renderer guarantees: rings are convex and listed "
